@@ -592,3 +592,63 @@ func TestC04RareBranches(t *testing.T) {
 		}
 	}
 }
+
+// TestC04TailSeeds runs whole key generation and signing on seeds xi from the
+// far tail of ExpandS: a counter range of seeds is scanned with the reference's
+// byte counter (mldsa.Scanner.ExpandSMax: the largest number of SHAKE-256 bytes
+// any of the k+l RejBoundedPoly calls of KeyGen(xi) reads); every seed that needs
+// more than the usual two blocks (eta = 4: about 1 seed in 10^4) and the 12
+// highest-scoring others are kept. Besides the byte comparison of pk, sk and
+// signature, the private key must survive Pack/Unpack (same signature again).
+func TestC04TailSeeds(t *testing.T) {
+	defer vlib.Done()
+	selftest(t)
+	sc := mldsa.NewScanner()
+	for _, s := range schemes {
+		p := s.p
+		sub := "tail-seeds/" + s.name
+		n := vlib.N(3000, 12000)
+		if p.Eta == 4 {
+			n = vlib.N(16000, 60000)
+		}
+		xi := make([]byte, 32)
+		vlib.ExpandInto(xi, uint64(vlib.Seed)*7919+13)
+		top := &mldsa.TopK{K: 12}
+		extra := &mldsa.TopK{K: 48}
+		for i := 0; i < n; i++ {
+			ctr := uint64(i)*uint64(vlib.NShards) + uint64(vlib.Shard)
+			for b := 0; b < 8; b++ {
+				xi[b] = byte(ctr >> (8 * uint(b)))
+			}
+			if sc2 := sc.ExpandSMax(p, xi); sc2 > 272 {
+				extra.Offer(sc2, xi)
+			} else {
+				top.Offer(sc2, xi)
+			}
+		}
+		vlib.ClassN(sub, "seeds-scanned", int64(n))
+		for _, it := range append(append([]mldsa.TopItem{}, extra.Items...), top.Items...) {
+			vlib.Eval(sub)
+			msg := []byte("C04 tail seed")
+			h, ok := makeHonest(t, s, it.Data, msg, nil)
+			if !ok {
+				continue
+			}
+			cls := fmt.Sprintf("ExpandS-blocks=%d", (it.Score+135)/136)
+			vlib.NonTrivial(sub, cls, it.Data)
+			vlib.Sample(sub, cls, fmt.Sprintf("scheme=%s xi=%x: a polynomial of s1/s2 reads %d SHAKE-256 bytes → pk, sk, signature bytes equal", s.name, it.Data, it.Score))
+			sk2 := s.unpackSK(h.skb)
+			sig2, err := s.signTo(sk2, msg, nil)
+			if err != nil || !bytes.Equal(sig2, h.sig) {
+				if !vlib.ReportDirect(t, "C04/sign/"+s.name+"/unpacked-sk", fmt.Sprintf("xi %x: signing with the unpacked private key differs at byte %d (err=%v)", it.Data, firstDiff(sig2, h.sig), err), map[string]interface{}{"scheme": s.name, "xi": fmt.Sprintf("%x", it.Data)}) {
+					return
+				}
+			}
+			if !s.verify(h.pk, msg, nil, h.sig) || !bytes.Equal(s.public(sk2), h.pkb) {
+				if !vlib.ReportDirect(t, "C04/keygen/"+s.name+"/tail-seed", fmt.Sprintf("xi %x: honest signature rejected or sk.Public() differs from pk", it.Data), map[string]interface{}{"scheme": s.name, "xi": fmt.Sprintf("%x", it.Data)}) {
+					return
+				}
+			}
+		}
+	}
+}
